@@ -6,6 +6,7 @@ import (
 	"io"
 	"os"
 	"path"
+	"path/filepath"
 	"strings"
 
 	"github.com/go-errors/errors"
@@ -112,6 +113,9 @@ func outputTupleDir(v rel.Value, dir string, fs afero.Fs, dryRun bool) error {
 			return fmt.Errorf("dir output dict key must be a non-empty string")
 		}
 		subpath := path.Join(dir, name.String())
+		if r, err := filepath.Rel(path.Clean(dir), subpath); err != nil || r == ".." || strings.HasPrefix(r, "../") {
+			return fmt.Errorf("dir output dict key must stay inside the output directory: %q", name.String())
+		}
 		switch content := v.(type) {
 		case rel.Tuple:
 			if err := configureOutput(content, subpath, fs, dryRun); err != nil {
